@@ -98,6 +98,9 @@ func Assert(c bool, msg string) {
 		Failed = append(Failed, msg)
 	}
 }
+// Holds reports whether c is implied on the current path (symbolic run: one
+// solver query; native run: the concrete value of c).
+func Holds(c bool) bool { return c }
 func Fail(msg string)             { Failed = append(Failed, msg) }
 func Cover(label string)          { Covered = append(Covered, label) }
 func And(a, b bool) bool          { return a && b }
